@@ -5,6 +5,7 @@
 From Coq Require Import List ZArith Bool.
 From SVC Require Import Base.AMap Base.Res Model.Types Model.Pricing Model.Handlers Model.Genesis
   Proofs.GenesisProofs.
+From SVC Require Import Model.EndBlock Model.Step Proofs.Inv Proofs.GapC19 Proofs.GapC19b.
 Import ListNotations.
 Open Scope Z_scope.
 
@@ -65,3 +66,146 @@ Print Assumptions C19_roundtrip.
 Print Assumptions C19_import_export.
 Print Assumptions C19_zero_height_roundtrip.
 Print Assumptions C19_import_indexes.
+
+(* ------------------------------------------------------------------ *)
+(* Over reachable states (Proofs/GapC19.v, GapC19b.v).
+
+   The money hypotheses of the theorems above follow from the invariant, so they hold in every
+   reachable state; the zero-height preparation of every reachable state succeeds, empties the
+   request escrow and leaves every context paused with no batch in flight. *)
+Theorem C19_reach_hyps : forall cfg s, wf_cfg cfg -> Reach cfg s ->
+  escrow_backed s /\ active_has_ctx s /\ fees_nonneg s /\ state_wf_exported s
+  /\ single_owner (export_genesis cfg s).
+Proof. exact GapC19.C19_reach_hyps. Qed.
+Print Assumptions C19_reach_hyps.
+
+Theorem C19_reach_prep : forall cfg s, wf_cfg cfg -> Reach cfg s ->
+  exists s', prep_zero_height s = Some s' /\ bal s' Escrow = 0
+    /\ (forall a, bal s' (User a) = bal s (User a) + pending_of s a + earned_of s a)
+    /\ bal s' Deposit = bal s Deposit /\ bal s' FeeColl = bal s FeeColl /\ supply s' = supply s
+    /\ (forall c rc', In (c, rc') (ctxs s') ->
+          c_state rc' = Paused /\ c_bdone rc' = true /\ c_breq rc' = 0 /\ c_bresp rc' = 0)
+    /\ state_wf_exported s'.
+Proof. exact GapC19.C19_reach_prep. Qed.
+Print Assumptions C19_reach_prep.
+
+Theorem C19_reach_roundtrip : forall cfg h t s, wf_cfg cfg -> Reach cfg s ->
+  export_genesis cfg (import_genesis h t (export_genesis cfg s)) = export_genesis cfg s
+  /\ index_consistent (import_genesis h t (export_genesis cfg s)).
+Proof. exact GapC19.C19_reach_roundtrip. Qed.
+Print Assumptions C19_reach_roundtrip.
+
+(* the rebuilt price terms and ownership indexes EQUAL those of the exporting state *)
+Theorem C19_indexes_rebuilt : forall cfg h t s, wf_cfg cfg -> Reach cfg s ->
+  let si := import_genesis h t (export_genesis cfg s) in
+  (forall k, get k (pricing si) = get k (pricing s))
+  /\ (forall p, get p (owner_of si) = get p (owner_of s))
+  /\ (forall e, In e (own_bind si) <-> In e (own_bind s))
+  /\ (forall e, In e (own_prov si) <-> In e (own_prov s)).
+Proof. exact GapC19b.C19_indexes_rebuilt. Qed.
+Print Assumptions C19_indexes_rebuilt.
+
+(* "The exported genesis always validates" needs the stateless validation of the messages to be
+   tied to their arguments: args_valid (qos > 0, provider / owner / consumer present for the
+   operations whose ValidateBasic flag is set; consumer present for the keeper call).  ReachV is
+   Reach restricted to such operations.  params_ok is Params.Validate (strictly positive
+   complaint retrospect and arbitration limit), which wf_cfg does not imply. *)
+Theorem C19_args_valid_def : forall o, args_valid o <->
+  match o with
+  | OBind _ prov _ _ qos owner ok => ok = true -> 0 < qos /\ prov <> 0 /\ owner <> 0
+  | OUpdate _ _ _ _ qos _ ok => ok = true -> 0 <= qos
+  | OCall _ _ _ cs _ _ _ _ _ _ _ _ ok => ok = true -> cs <> 0
+  | OModCall _ _ _ cs _ _ _ _ _ _ _ _ _ _ => cs <> 0
+  | _ => True
+  end.
+Proof. intros o. destruct o; cbn [args_valid]; tauto. Qed.
+Print Assumptions C19_args_valid_def.
+
+Theorem C19_reachV_reach : forall cfg s, ReachV cfg s -> Reach cfg s.
+Proof. exact GapC19.ReachV_Reach. Qed.
+Print Assumptions C19_reachV_reach.
+
+Theorem C19_reachV_records_ok : forall cfg s, wf_cfg cfg -> ReachV cfg s ->
+  bindings_ok s /\ contexts_ok s.
+Proof. exact GapC19.C19_reachV_records_ok. Qed.
+Print Assumptions C19_reachV_records_ok.
+
+Theorem C19_reach_export_valid : forall cfg s s',
+  wf_cfg cfg -> params_ok cfg -> ReachV cfg s ->
+  prep_zero_height s = Some s' -> validate_genesis (export_genesis cfg s') = true.
+Proof. exact GapC19.C19_reach_export_valid. Qed.
+Print Assumptions C19_reach_export_valid.
+
+Theorem C19_reach_zero_height_roundtrip : forall cfg h t s,
+  wf_cfg cfg -> params_ok cfg -> ReachV cfg s ->
+  exists s' si, prep_zero_height s = Some s' /\ bal s' Escrow = 0
+    /\ init_genesis h t (export_genesis cfg s') = Ok si
+    /\ export_genesis cfg si = export_genesis cfg s' /\ index_consistent si.
+Proof. exact GapC19.C19_reach_zero_height_roundtrip. Qed.
+Print Assumptions C19_reach_zero_height_roundtrip.
+
+(* without args_valid the facet is false of the model: a reachable state whose prepared export
+   is rejected (binding with qos 0; context without consumer) *)
+Theorem C19_export_valid_refuted :
+  exists cfg s s', wf_cfg cfg /\ params_ok cfg /\ Reach cfg s
+    /\ prep_zero_height s = Some s' /\ validate_genesis (export_genesis cfg s') = false
+    /\ ~ bindings_ok s.
+Proof. exact GapC19b.C19_export_valid_refuted. Qed.
+Print Assumptions C19_export_valid_refuted.
+
+Theorem C19_export_valid_refuted_ctx :
+  exists cfg s s', wf_cfg cfg /\ params_ok cfg /\ Reach cfg s
+    /\ prep_zero_height s = Some s' /\ validate_genesis (export_genesis cfg s') = false
+    /\ bindings_ok s /\ ~ contexts_ok s.
+Proof. exact GapC19b.C19_export_valid_refuted_ctx. Qed.
+Print Assumptions C19_export_valid_refuted_ctx.
+
+Theorem C19_params_ok_of_wf : forall cfg,
+  wf_cfg cfg -> 0 < p_arb cfg -> 0 < p_compl cfg -> params_ok cfg.
+Proof. exact GapC19.params_ok_of_wf. Qed.
+Print Assumptions C19_params_ok_of_wf.
+
+Theorem C19_params_ok_needs_positive_refuted : exists cfg, wf_cfg cfg /\ params_valid cfg = false.
+Proof. exact GapC19.C19_params_ok_needs_positive_refuted. Qed.
+Print Assumptions C19_params_ok_needs_positive_refuted.
+
+(* the genesis of a live chain (a context not paused, or a batch in flight) is rejected as it is *)
+Theorem C19_plain_export_rejected : forall cfg s c rc, In (c, rc) (ctxs s) ->
+  (c_state rc <> Paused \/ c_bdone rc = false) -> validate_genesis (export_genesis cfg s) = false.
+Proof. exact GapC19b.C19_plain_export_rejected. Qed.
+Print Assumptions C19_plain_export_rejected.
+
+(* the refunds of the preparation may be made in any order (the code walks the by-binding marker
+   index, the model the request ids): same success, same balances *)
+Theorem C19_refund_order_irrelevant : forall cfg s l', wf_cfg cfg -> Reach cfg s ->
+  Permutation.Permutation (refund_list s ++ earned_list s) l' ->
+  exists s1 s1', pay_all (refund_list s ++ earned_list s) s = Some s1 /\ pay_all l' s = Some s1'
+    /\ forall x, bal s1' x = bal s1 x.
+Proof. exact GapC19b.C19_refund_order_irrelevant. Qed.
+Print Assumptions C19_refund_order_irrelevant.
+
+(* What does not survive a zero-height export (title facet "State survives"): the preparation
+   pauses EVERY context and forgets the batch in flight but keeps the batch counter.
+   (i) a killed context (Completed) comes back Paused, i.e. startable; *)
+Theorem C19_prep_unkills : forall s s' c rc, prep_zero_height s = Some s' ->
+  get c (ctxs s) = Some rc -> c_state rc = Completed ->
+  exists rc', get c (ctxs s') = Some rc' /\ c_state rc' = Paused /\ c_counter rc' = c_counter rc.
+Proof. exact GapC19b.C19_prep_unkills. Qed.
+Print Assumptions C19_prep_unkills.
+
+(* (ii) a one-shot context whose batch was in flight comes back Paused with counter 1 and no pending
+   expiry: the imported state (continued with the prepared bank) violates the context-shape
+   conjunct I_ctx of the invariant, the consumer can start the context and the next EndBlock issues
+   a second batch for it.  Witness on the example history of Proofs/GenesisProofs.v. *)
+Theorem C19_oneshot_not_preserved_by_import :
+  ReachV ex_cfg ex_state /\ prep_zero_height ex_state = Some ex_prep
+  /\ init_genesis 20 0 (export_genesis ex_cfg ex_prep) = Ok GapC19b.ex_si
+  /\ (exists rc, get (78, 0) (ctxs ex_state) = Some rc /\ c_rep rc = false /\ c_counter rc = 1
+        /\ c_state rc = Running)
+  /\ (exists rc, get (78, 0) (ctxs GapC19b.ex_si) = Some rc /\ c_rep rc = false /\ c_counter rc = 1
+        /\ c_state rc = Paused /\ has (78, 0) (expq_h GapC19b.ex_si) = false)
+  /\ ~ I_ctx ex_cfg GapC19b.ex_resumed
+  /\ keys (reqs (run ex_cfg GapC19b.ex_resumed [OStart (78, 0) 112 true; OEndBlock 1]))
+     = [((78, 0), 2, 20, 0)].
+Proof. exact GapC19b.C19_oneshot_not_preserved_by_import. Qed.
+Print Assumptions C19_oneshot_not_preserved_by_import.
